@@ -242,11 +242,30 @@ def hUpb : Handler := fun j => do
   if dims.foldl (· * ·) 1 != V.r then return reject "DimMismatch"
   return exceptVerdictJson (upbV dims V.c (fun k a => V.f a k) surj m)
 
+/-- `{"A":mat, "L":mat, "D":[rat…]}` : verified PSD certificate `A = L diag(D) Lᴴ`, `D ≥ 0` -/
+def hPsdCert : Handler := fun j => do
+  let A ← getMat j "A"
+  let L ← getMat j "L"
+  let D ← getRatList j "D"
+  let n := A.r
+  if A.c != n || L.r != n || L.c != n || D.length != n then return reject "Shape"
+  return Json.mkObj [("ok", Json.bool (psdCertLDL (toEMat A n n) (toEMat L n n) (fun i => D.getD i.val 0)))]
+
+/-- `{"A":mat, "x":mat (n×1), "mu":rat}` : verified certificate `xᴴ (A + mu I) x < 0` -/
+def hNpsdCert : Handler := fun j => do
+  let A ← getMat j "A"
+  let x ← getMat j "x"
+  let mu ← getRat j "mu"
+  let n := A.r
+  if A.c != n || x.r != n || x.c != 1 then return reject "Shape"
+  return Json.mkObj [("ok", Json.bool (npsdCert (toEMat A n n) (toEMat x n 1) mu))]
+
 def handlers : List (String × Handler) :=
   [("c16_vec", hVec), ("c16_unvec", hUnvec), ("c16_tensor", hTensor), ("c16_kron_pow", hKronPow),
    ("c16_mul", hMul), ("c16_gram", hGram), ("c16_to_density", hToDensity), ("c16_calc_dim", hCalcDim),
    ("c16_same_dim", hSameDim), ("c16_majorizes", hMajorizes), ("c16_rank", hRank), ("c16_spark", hSpark),
    ("c16_commutant_dim", hCommutantDim), ("c16_pred", hPred), ("c16_list_pred", hListPred),
-   ("c16_set_pred", hSetPred), ("c16_mub", hMub), ("c16_upb", hUpb)]
+   ("c16_set_pred", hSetPred), ("c16_mub", hMub), ("c16_upb", hUpb),
+   ("c16_psd_cert", hPsdCert), ("c16_npsd_cert", hNpsdCert)]
 
 end Toq.Driver.C16
